@@ -365,6 +365,10 @@ def classify_check(c):
     if cat in ("unwind",):
         return "unwind"
     if cat == "assertion" and d.lstrip().startswith("|"):
+        body = d.split("|", 2)[-1]
+        # a postcondition that is only the representation invariant (no value equation): totality of every later operation rests on it
+        if "fits(" in body and "==" not in body.replace("fits(", ""):
+            return "ens_inv"
         return "ens"
     if cat in ("arithmetic_overflow", "division-by-zero", "bit_count") or (cat == "assertion" and OVERFLOW_RE.search(d)):
         return "safe_overflow"
